@@ -639,8 +639,11 @@ def _check_search_orders(ctx):
                     isinstance(e, ast.Constant) and e.value in (
                         "complete", "truncated", "reduced")
                     for e in n.value.elts) and any(
-                        isinstance(l, ast.For) and U(l.iter) ==
-                        n.targets[0].id for l in walk_no_nested(f.node)):
+                        isinstance(l, ast.For) and any(
+                            isinstance(x, ast.Name) and
+                            x.id == n.targets[0].id
+                            for x in ast.walk(l.iter))
+                        for l in walk_no_nested(f.node)):
             order = [e.value for e in n.value.elts
                      if isinstance(e, ast.Constant)]
     if order != ["complete", "truncated", "reduced"]:
